@@ -192,9 +192,9 @@ Qed.
     their text).  Lexable tokens, written one after the other with any non-empty white space after each, lex back to exactly those
     tokens. *)
 Theorem lex_tokens :
-  forall (anch : bytes -> bool) (re_names : bytes -> option (list bytes)) (ts : list token) (l : list (ltok * bytes)),
-  map fst l = map ltok_of ts -> Forall (fun x => all_space (snd x)) l -> Forall (lexable anch re_names) ts -> funs_ok (map ltok_of ts) ->
-  exists toks, lex (layout l) = LexOk toks /\ map (tok_of anch re_names) toks = ts.
+  forall (anch : bytes -> bool) (re_names : bytes -> option (list bytes)) (dur : bytes -> option Z) (ts : list token) (l : list (ltok * bytes)),
+  map fst l = map ltok_of ts -> Forall (fun x => all_space (snd x)) l -> Forall (lexable anch re_names dur) ts -> funs_ok (map ltok_of ts) ->
+  exists toks, lex (layout l) = LexOk toks /\ map (tok_of anch re_names dur) toks = ts.
 Proof. exact lex_tokens_lemma. Qed.
 Print Assumptions lex_tokens.
 
@@ -203,11 +203,11 @@ Print Assumptions lex_tokens.
     not function names (by, json, drop, ...: [kw_cls] is the lexer's classification); values are printable bytes; regex values
     compile ([text_matcher]).  The text lexes, and the parser returns exactly the matchers. *)
 Theorem selector_text_parse :
-  forall (anch : bytes -> bool) (re_names : bytes -> option (list bytes)) (ms : list matcher) (l : list (ltok * bytes)) (p r : list token) (fuel : nat),
+  forall (anch : bytes -> bool) (re_names : bytes -> option (list bytes)) (dur : bytes -> option Z) (ms : list matcher) (l : list (ltok * bytes)) (p r : list token) (fuel : nat),
   map fst l = map ltok_of (print_selector anch re_names kw_cls ms) -> Forall (fun x => all_space (snd x)) l ->
   Forall (text_matcher anch) ms -> (length ms < fuel)%nat ->
   exists toks, lex (layout l) = LexOk toks /\
-    parse_selector fuel {| prev := p; rest := map (tok_of anch re_names) toks ++ r |} =
+    parse_selector fuel {| prev := p; rest := map (tok_of anch re_names dur) toks ++ r |} =
       POk ms {| prev := rev (print_selector anch re_names (fun _ => TIdent) ms) ++ p; rest := r |}.
 Proof. exact selector_text_lemma. Qed.
 Print Assumptions selector_text_parse.
@@ -217,13 +217,75 @@ Print Assumptions selector_text_parse.
     whose label names are identifiers that are not keywords and whose strings are printable ([text_stage]) -- to its tree,
     through parse_tokens (what logql.Parse does after tokenizing) *)
 Theorem log_query_text_parse :
-  forall (anch : bytes -> bool) (re_names : bytes -> option (list bytes)) (sel : list matcher) (sts : list stage) (l : list (ltok * bytes)),
+  forall (anch : bytes -> bool) (re_names : bytes -> option (list bytes)) (dur : bytes -> option Z) (sel : list matcher) (sts : list stage) (l : list (ltok * bytes)),
   map fst l = map ltok_of (print_selector anch re_names kw_cls sel ++ print_stages anch re_names sts) ->
   Forall (fun x => all_space (snd x)) l ->
   Forall (text_matcher anch) sel -> Forall text_stage sts -> chain_ok anch re_names sts [] ->
-  exists toks, lex (layout l) = LexOk toks /\ parse_tokens (map (tok_of anch re_names) toks) = Parsed (ELog sel sts).
+  exists toks, lex (layout l) = LexOk toks /\ parse_tokens (map (tok_of anch re_names dur) toks) = Parsed (ELog sel sts).
 Proof. exact log_query_text_lemma. Qed.
 Print Assumptions log_query_text_parse.
+
+(** ... from the TEXT of a range aggregation without unwrap  op ( {selector} stages [ 5m ] offset 1h )  -- the range and the
+    offset written as digits and one unit ([text_dur]: [dur] is lexerql.ParseDuration on the token text) -- to its tree *)
+Theorem range_agg_text_parse :
+  forall (anch : bytes -> bool) (re_names : bytes -> option (list bytes)) (dur : bytes -> option Z)
+         (o : rangeop) (sel : list matcher) (sts : list stage) (rtxt : bytes) (rns : Z) (off : option (bytes * Z)) (l : list (ltok * bytes)),
+  map fst l = map ltok_of (print_range_agg anch re_names kw_cls o sel sts rtxt rns off) ->
+  Forall (fun x => all_space (snd x)) l ->
+  range_validate o None None false = true ->
+  Forall (text_matcher anch) sel -> Forall text_stage sts -> chain_ok anch re_names sts (print_range rtxt rns off ++ [plain TCloseParen (spelling TCloseParen)]) ->
+  text_dur dur rtxt rns -> text_offset dur off ->
+  exists toks, lex (layout l) = LexOk toks /\
+    parse_tokens (map (tok_of anch re_names dur) toks) =
+      Parsed (ERange o {| r_sel := sel; r_range := rns; r_pipe := sts; r_unwrap := None; r_offset := option_map snd off |} None None).
+Proof. exact range_agg_text_lemma. Qed.
+Print Assumptions range_agg_text_parse.
+
+(** ... and of a grouped vector aggregation over it:  sum by ( a , b ) ( rate ( {selector} stages [ 5m ] ) )  (the function keyword
+    keeps its type because by / without follows) *)
+Theorem vec_agg_text_parse :
+  forall (anch : bytes -> bool) (re_names : bytes -> option (list bytes)) (dur : bytes -> option Z)
+         (v : vectorop) (g : grouping) (o : rangeop) (sel : list matcher) (sts : list stage) (rtxt : bytes) (rns : Z) (off : option (bytes * Z)) (l : list (ltok * bytes)),
+  map fst l = map ltok_of (print_vec_agg anch re_names kw_cls v g o sel sts rtxt rns off) ->
+  Forall (fun x => all_space (snd x)) l ->
+  vector_validate v None (Some g) = true -> range_validate o None None false = true -> text_names (g_labels g) ->
+  Forall (text_matcher anch) sel -> Forall text_stage sts ->
+  chain_ok anch re_names sts (print_range rtxt rns off ++ [plain TCloseParen (spelling TCloseParen); plain TCloseParen (spelling TCloseParen)]) ->
+  text_dur dur rtxt rns -> text_offset dur off ->
+  exists toks, lex (layout l) = LexOk toks /\
+    parse_tokens (map (tok_of anch re_names dur) toks) = Parsed (EVecAgg v (range_expr o sel sts rns off) None (Some g)).
+Proof. exact vec_agg_text_lemma. Qed.
+Print Assumptions vec_agg_text_parse.
+
+(** non-vacuity: the text of  sum without ( a , b ) ( rate ( { app = "x" } != "y" [ 5m ] offset 1h ) ) *)
+Example vec_agg_text_example :
+  let anch := fun _ : bytes => true in
+  let rn := fun _ : bytes => Some (@nil bytes) in
+  let m5 := ["5"%byte; "m"%byte] in let h1 := ["1"%byte; "h"%byte] in
+  let dur := fun t : bytes => if bytes_eqb t m5 then Some 300000000000 else if bytes_eqb t h1 then Some 3600000000000 else None in
+  let sel := [ {| m_label := ["a"%byte; "p"%byte; "p"%byte]; m_op := OpEq; m_value := ["x"%byte] |} ] in
+  let sts := [SLine OpNotEq ["y"%byte] false] in
+  let g := {| g_labels := [["a"%byte]; ["b"%byte]]; g_without := true |} in
+  let off := Some (h1, 3600000000000) in
+  let toks := print_vec_agg anch rn kw_cls VectorOpSum g RangeOpRate sel sts m5 300000000000 off in
+  let l := map (fun t => (ltok_of t, if ttype_eqb (ty t) TComma then [x0a; x09] else [" "%byte])) toks in
+  map fst l = map ltok_of toks /\ Forall (fun x => all_space (snd x)) l /\ Forall (text_matcher anch) sel /\ Forall text_stage sts /\
+  text_names (g_labels g) /\ text_dur dur m5 300000000000 /\ text_offset dur off /\
+  firstn 16 (layout l) = [ "s"; "u"; "m"; " "; "w"; "i"; "t"; "h"; "o"; "u"; "t"; " "; "("; " "; "a"; " " ]%byte /\
+  match lex (layout l) with
+  | LexOk lexed => parse_tokens (map (tok_of anch rn dur) lexed) =
+                   Parsed (EVecAgg VectorOpSum (range_expr RangeOpRate sel sts 300000000000 off) None (Some g))
+  | _ => False
+  end.
+Proof.
+  cbv zeta. split; [vm_compute; reflexivity|]. split; [|split; [|split; [|split; [|split; [|split; [|split; vm_compute; reflexivity]]]]]].
+  - vm_compute. repeat constructor; discriminate.
+  - repeat constructor; vm_compute; reflexivity.
+  - repeat constructor; vm_compute; reflexivity.
+  - repeat constructor; vm_compute; reflexivity.
+  - split; [vm_compute; reflexivity|]. vm_compute. repeat split; try reflexivity; try lia. tauto.
+  - split; [vm_compute; reflexivity|]. vm_compute. repeat split; try reflexivity; try lia. tauto.
+Qed.
 
 (** non-vacuity: a selector with the keyword label names by and json (one value holding an escaped quote), then an ip filter,
     drop a , b and a label_format with a rename and a template, with a newline and a tab among the separators: the hypotheses hold, the layout is that text, and lexing then parsing it
@@ -240,7 +302,7 @@ Example log_query_text_example :
   chain_ok anch rn sts [] /\
   firstn 14 (layout l) = [ "{"; " "; "b"; "y"; " "; "="; " "; """"; "v"; "\"; """"; """"; " "; "," ]%byte /\
   match lex (layout l) with
-  | LexOk lexed => parse_tokens (map (tok_of anch rn) lexed) = Parsed (ELog sel sts)
+  | LexOk lexed => parse_tokens (map (tok_of anch rn (fun _ => None)) lexed) = Parsed (ELog sel sts)
   | _ => False
   end.
 Proof.
